@@ -181,15 +181,23 @@ macro_rules! some_quantities {
     };
 }
 
+#[cfg(feature = "allsi")]
 mod si_f64 {
     use uomh::for_each_quantity;
     for_each_quantity!(conv_item, f64, Si, "si");
 }
+#[cfg(feature = "allsi")]
 mod si_f32 {
     use uomh::for_each_quantity;
     for_each_quantity!(conv_item, f32, Si, "si");
 }
 
+#[cfg(not(feature = "allsi"))]
+fn all_si<W: Write>(_ctx: &mut Ctx<W>) {
+    panic!("built without the allsi feature");
+}
+
+#[cfg(feature = "allsi")]
 fn all_si<W: Write>(ctx: &mut Ctx<W>) {
     {
         use si_f64::*;
